@@ -297,7 +297,8 @@ def markov_helper(repo, rep):
                     kw = {k: v for k, v in s_.binding.items() if isinstance(v, ast.AST)}
             if "trans_and_rec_time_fxn" in kw:
                 fs = _fact_set(c)
-                ok = "not(transmission_weightisnotNone)" in fs and "not(tau*gamma==0)" in fs
+                ok = ("not(transmission_weightisnotNone)" in fs or "transmission_weightisNone" in fs) and \
+                    ("not(tau*gamma==0)" in fs or "tau*gamma!=0" in fs or "gamma*tau!=0" in fs or "not(gamma*tau==0)" in fs)
                 rep.ob("MARKOV", ok, "fast_SIR: the constant-tau shortcut is taken only without edge weights and with tau*gamma != 0",
                        func=h, node=c.stmt, construct="shortcut under %s" % sorted(fs), detail="" if ok else "shortcut guard changed")
                 args = kw.get("trans_and_rec_time_args")
